@@ -115,6 +115,8 @@ def verify_member(member, payload_field, jwk):
     merged = dict(p)
     merged.update(member.get("header") or {})
     b64mode = p.get("b64", True) is not False
+    if not b64mode and "b64" not in (p.get("crit") or []):
+        raise RefError("b64 without crit")
     try:
         payload = b64.dec(payload_field) if b64mode else payload_field.encode("utf-8")
         sig = b64.dec(member["signature"])
